@@ -22,6 +22,7 @@ def run(col, configs, tier):
         guarded(col, X.rule_byte_predicates, facts)
         guarded(col, X.rule_control_radices, facts)
         guarded(col, X.rule_punctuation_pairs, facts)
+        guarded(col, X.rule_options_punctuation_pairs, facts)
         from rules import dispatch as D18
         guarded(col, D18.rule_check_radix_table, facts)
         for crate in ("lexical_write_float", "lexical_parse_float", "lexical_write_integer", "lexical_parse_integer"):
